@@ -1,4 +1,4 @@
-import Martian.Lemmas.ShapeInter
+import Martian.Lemmas.ShapeSafe
 /-!
 C18 — interleaved histories.  A history is any list of steps of the world `World` (one listener,
 its connections): configuration swaps, accepts, per-response context set-up, entries of
@@ -44,6 +44,34 @@ theorem interleaved_accepted_applies_only_to_later_conns (pre post : List Step) 
     exact Nat.le_of_lt (hc1.2 ic (List.mem_of_getElem? hi))
   obtain ⟨ic', h1, h2, h3, h4⟩ := run_oldAt post _ hc2 i _ _ hold
   exact ⟨ic', h1, h3, h2, validShape_old _ _ (by omega)⟩
+
+/-- … and none of its responses is cut any more: whether it had been cut before the configuration was
+accepted is all that matters.  Together with `interleaved_delivered_prefix`: every byte written to
+a connection that is older than the active configuration reaches the client, unchanged. -/
+theorem interleaved_old_conn_never_cut (pre post : List Step) (cfg : RawConfig) (l' : Listener)
+    (h : configure (World.run {} pre).l cfg = .ok l') (i : Nat) (ic : IConn)
+    (hi : (World.run {} pre).conns[i]? = some ic) :
+    ∃ ic', (World.run ((World.run {} pre).step (.configure cfg)) post).conns[i]? = some ic' ∧
+      ic'.dead = ic.dead := by
+  have hs1 : WorldSafe (World.run {} pre) := run_worldSafe pre {} worldSafe_init
+  have hs2 := step_worldSafe _ (.configure cfg) hs1
+  obtain ⟨hlm, hst⟩ := configure_ok_lastMod _ _ _ h
+  have hold : DeadAt ((World.run {} pre).step (.configure cfg)) i ic.c.established ic.dead := by
+    refine ⟨ic, by simpa [World.step] using hi, rfl, rfl, ?_⟩
+    simp only [World.step, hst, hlm]
+    exact Nat.le_of_lt (hs1.2.1.2 ic (List.mem_of_getElem? hi))
+  obtain ⟨ic', h1, _, h3, _⟩ := run_deadAt post _ hs2 i _ _ hold
+  exact ⟨ic', h1, h3⟩
+
+/-- **No interleaving makes the write loop panic.**  In every history — configurations swapped in
+between two rounds of a `Write`, other connections consuming the counts of the shared actions,
+patterns disappearing — no round ever takes a slice with a negative bound or indexes the action
+list out of range (`actions[ind]` is only read after `CheckExistenceAndValidity`, and for a
+connection the shapes are still valid for, the recorded index and offset still fit the list). -/
+theorem interleaved_rounds_never_panic (steps : List Step) :
+    ∀ ic ∈ (World.run {} steps).conns, ic.panicked = false := by
+  intro ic hic
+  exact ((run_worldSafe steps {} worldSafe_init).2.2 ic hic).1
 
 /-- A round of a connection that is older than the current configuration performs no action and
 does not touch the listener (in particular not the counts of the new shapes). -/
